@@ -386,3 +386,9 @@ def c09_extend_items_midway(rec, params):
     cur, new = before[t]['labels'], after[t]['labels']
     k = len(new) - len(cur)
     return new[:len(cur)] == cur and 0 < k < len(last['labels']) and new[len(cur):] == last['labels'][:k]
+
+
+@classifier
+def c01_fresh_writeable(rec, params):
+    case = rec.get('case') or {}
+    return rec.get('clause') == 'writeable_array_reachable' and case.get('attr') in params.get('attrs', [])
